@@ -117,6 +117,10 @@ func Reach(label string) { Trace = append(Trace, "R:"+label) }
 // NondetMapOrder makes the engine explore every iteration order of Go maps.
 func NondetMapOrder(on bool) {}
 
+// Freeze marks everything reachable from the arguments and from package-level variables as
+// shared: under the engine a later store into shared memory is reported (C16). No-op natively.
+func Freeze(roots ...any) {}
+
 // Symbolic reports whether the harness runs under the symbolic engine.
 func Symbolic() bool { return false }
 
